@@ -1,21 +1,56 @@
 (* Properties/C04.v — statements only. Object storage is a complete, exact rendering of the leaves.
-   Proved: nothing but staging bundles is ever discarded; the (simulated) object store never lets
-   an immutable object be rewritten with different bytes (the Backend contract sunlight relies
-   on: LocalBackend implements it, see C13).
-   NOT yet a theorem: completeness and byte-exactness of all tiles behind the published checkpoint
-   (invariant I3 of DESIGN.md). It is decided per run by (a) the operation-level correspondence:
-   the extracted model predicts the digest of every uploaded object from the specification-level
-   rendering of the leaf list, and (b) the monitor C04.audit, which after EVERY effective upload of
-   the checkpoint object re-reads all data, names, hash tiles and issuers behind it and compares
-   them with an independent RFC 6962 tree. Hence the names *_partial. *)
-From SL Require Import Ctlog.Model Ctlog.Theorems2.
+   Because the theorems hold for `run evs` of EVERY event list, they hold after each individual
+   storage operation of every history (every observable intermediate state), for all tree sizes
+   and entry shapes, any number of instances, all fault placements and crash points.
+   Proved for all event lists without tampering (fewer than 2^63 events: the range in which tile
+   paths are injective), for every hash function [sha] (no collision-freeness is needed: the
+   invariant rests on the immutability of tiles and staging bundles; Theorems3.v shows that the
+   tree hash canNOT determine the uncovered fields, tree_hash_ignores_unhashed_fields):
+   - C04_complete_exact: the tree of the published checkpoint is fully backed: every hash tile of
+     tiles_needed(size) (full tiles and the right-edge partial per level), every data and names
+     tile, present with exactly the bytes the Static CT layout prescribes for the leaf sequence;
+   - C04_exact_everything: EVERY object stored under a tile path (needed or not, e.g. superseded
+     partial tiles) is the canonical rendering of the committed leaf sequence and lies within it;
+   - C04_only_staging_discarded; C04_immutable_not_rewritten (Backend contract of the store).
+   Leaf i carries index i by construction of the model's leaf lists (leaf_of ... (first+k));
+   referenced issuers are checked by the monitor C04.audit and the operation-level correspondence. *)
+From SL Require Import Merkle.TilesProofs Ctlog.Model Ctlog.Spec Ctlog.Theorems2 Ctlog.Inv3 Ctlog.Inv3Step Ctlog.Theorems3.
+Open Scope N_scope.
 
-Theorem C04_partial_only_staging_discarded : forall (sha : bytes -> bytes) evs d,
+Theorem C04_complete_exact : forall (sha : bytes -> bytes) evs P ls,
+  no_tamper evs -> N.of_nat (length evs) < 9223372036854775808 ->
+  published (run sha evs init) = Some P -> In (P, ls) (w_lockhist (run sha evs init)) ->
+  complete_exact_spec sha (w_store (run sha evs init)) ls.
+Proof. exact Theorems3.C04_complete_exact. Qed.
+Print Assumptions C04_complete_exact.
+
+Theorem C04_exact_everything : forall (sha : bytes -> bytes) evs,
+  no_tamper evs -> N.of_nat (length evs) < 9223372036854775808 ->
+  let w := run sha evs init in
+  (forall t o, 1 <= tc_W t <= 256 -> tc_N t < 9223372036854775808 -> (Z.of_nat (tc_L t) < two63)%Z ->
+     lookup (w_store w) (hash_tile_path t) = Some o ->
+     o = OB (hash_tile_bytes sha (G w) t) /\
+     (tc_N t * 256 + tc_W t) * 256 ^ N.of_nat (tc_L t) <= N.of_nat (length (G w))) /\
+  (forall n wd o, 1 <= wd <= 256 -> n < 9223372036854775808 ->
+     lookup (w_store w) (data_tile_path n wd) = Some o ->
+     o = OB (data_tile_bytes (slice (G w) (n * 256) wd)) /\ n * 256 + wd <= N.of_nat (length (G w))) /\
+  (forall n wd o, 1 <= wd <= 256 -> n < 9223372036854775808 ->
+     lookup (w_store w) (names_tile_path n wd) = Some o ->
+     o = OB (names_tile_bytes (slice (G w) (n * 256) wd)) /\ n * 256 + wd <= N.of_nat (length (G w))).
+Proof. exact Theorems3.C04_exact_everything. Qed.
+Print Assumptions C04_exact_everything.
+
+Theorem C04_only_staging_discarded : forall (sha : bytes -> bytes) evs d,
   In d (w_discards (run sha evs init)) -> exists n root, fst d = staging_path n root.
 Proof. exact only_staging_is_discarded. Qed.
-Print Assumptions C04_partial_only_staging_discarded.
+Print Assumptions C04_only_staging_discarded.
 
-Theorem C04_partial_immutable_not_rewritten : forall s k old o f,
+Theorem C04_immutable_not_rewritten : forall s k old o f,
   lookup s k = Some old -> obj_eqb old o = false -> do_upload s k o true f = (s, false).
 Proof. intros s k old o f H E. unfold do_upload. rewrite H, E. reflexivity. Qed.
-Print Assumptions C04_partial_immutable_not_rewritten.
+Print Assumptions C04_immutable_not_rewritten.
+
+(* non-vacuity: the example history publishes a committed checkpoint under the hypotheses *)
+Example C04_example : no_tamper Example.history1 /\
+  exists P, published (run Example.toy_sha Example.history1 init) = Some P /\ cp_size P = 3.
+Proof. split; [apply no_tamperb_ok; vm_compute; reflexivity|]. vm_compute. eexists. split; reflexivity. Qed.
